@@ -231,6 +231,15 @@ def source_variants(tier):
     v.append(("l-sub-up", {"sub/e": L("../t")}))
     v.append(("l-sub-abs", {"sub/e": L("{ROOT}/t")}))
     v.append(("l-dirlink", {"e": L("sub")}))
+    # names that begin with a dot (hidden files, '..data'-style directories) as entries and as link targets
+    v.append(("f-dotname", {".hidden": F("a", 0o600, T1)}))
+    v.append(("d-dotname", {".config": D(0o755), ".config/settings": F("bin")}))
+    v.append(("d-dotdotname", {"..data": D(0o755), "..data/value": F("a")}))
+    v.append(("l-abs-dotfile", {"e": L("{ROOT}/.hidden"), ".hidden": F("a")}))
+    v.append(("l-abs-dotdir", {"e": L("{ROOT}/.config/settings"), ".config": D(), ".config/settings": F("bin")}))
+    v.append(("l-abs-dotdotname", {"e": L("{ROOT}/..data/value"), "..data": D(), "..data/value": F("a")}))
+    v.append(("l-rel-dotfile", {"e": L(".hidden"), ".hidden": F("a")}))
+    v.append(("l-sub-abs-dot", {"sub/e": L("{ROOT}/.hidden"), ".hidden": F("a")}))
     return v
 
 
